@@ -22,6 +22,12 @@ func (harness) Configs(tier string) []xplore.Config {
 		return configs04(tier)
 	case "C05":
 		return configs05(tier)
+	case "C07":
+		return configs07(tier)
+	case "C08":
+		return configs08(tier)
+	case "C14":
+		return configs14(tier)
 	}
 	panic("unknown property " + *prop)
 }
@@ -32,6 +38,12 @@ func (harness) Run(cfg xplore.Config, ch vrt.Chooser, trace bool) (xplore.Outcom
 		return run04(cfg, ch, trace)
 	case "C05":
 		return run05(cfg, ch, trace)
+	case "C07":
+		return run07(cfg, ch, trace)
+	case "C08":
+		return run08(cfg, ch, trace)
+	case "C14":
+		return run14(cfg, ch, trace)
 	}
 	panic("unknown property " + *prop)
 }
